@@ -138,6 +138,7 @@ inline const std::vector<DefShape> &def_pool() {
       {"callprev0", 0, "PROGRAM %N DO", {"x1 := RUN %C WITH END;", "x0 := x1 + 1"}, 0},
       {"callprev2", 1, "PROGRAM %N IN a OUT z DO", {"z := RUN %C WITH a, 2 END"}, 2},
       {"loopcall", 1, "PROGRAM %N IN a DO", {"LOOP a DO", "  x0 := RUN %C WITH x0 END", "END"}, 1},
+      {"nestedprev2", 1, "PROGRAM %N IN a OUT a DO", {"a := RUN %C WITH RUN %C WITH a, a END, a END"}, 2},
   };
   return P;
 }
@@ -184,9 +185,12 @@ inline Alphabet alphabet_FC(const std::vector<DefInst> &defs, bool wrong_arity, 
   std::map<std::string, int> ar; std::vector<std::string> order;
   for (auto &d : defs) { if (!ar.count(d.name)) order.push_back(d.name); ar[d.name] = def_pool()[d.shape].arity; }
   std::vector<std::string> args = {"x0", "x1", "2", "x1 + 1"};
-  std::string nest;
-  for (auto &n : order) if (ar[n] == 1) nest = "RUN " + n + " WITH x1 END";
-  if (!nest.empty()) args.push_back(nest);
+  // nested calls as arguments: every visible definition with simple arguments (also as a non-last argument)
+  for (auto &n : order) {
+    if (ar[n] == 0) args.push_back("RUN " + n + " WITH END");
+    if (ar[n] == 1) { args.push_back("RUN " + n + " WITH x1 END"); }
+    if (ar[n] == 2) { args.push_back("RUN " + n + " WITH x1, 2 END"); args.push_back("RUN " + n + " WITH x0, x0 END"); }
+  }
   if (!rich) args = {"x1", "2"};
   for (auto &n : order) {
     std::vector<int> arities = {ar[n]};
